@@ -54,7 +54,12 @@ TEMPLATES = [
     ('if-in-case', 'SELECT CASE zv%\nCASE 2\nIF {c} THEN\n{X}END IF\nCASE ELSE\nEND SELECT\n'),
     ('do-in-if', 'IF {c} THEN\nDO\n{X}LOOP UNTIL zt%\nEND IF\n'),
     ('if-after-loop-end', 'FOR zi{n}% = 1 TO 2\nIF {c} THEN {S}\nNEXT\n'),
+    ('select-no-case', 'SELECT CASE zv%\nEND SELECT\n{X}'),
+    ('select-no-case-expr', 'SELECT CASE zv% + 1\nEND SELECT\n{X}'),
 ]
+# bodies that consist only of statements which generate no code
+NOCODE = {'rem': 'REM nothing here\n', 'comment': "' nothing here\n", 'const': 'CONST zcc{n}{s} = 1\n', 'dim': 'DIM zdd{n}{s} AS LONG\n',
+          'label': 'zll{n}{s}:\n', 'blank': '\n', 'colon': ':\n'}
 
 
 def _fill(tmpl, n, c, slots):
@@ -78,6 +83,13 @@ def constructs():
                     slots = [f'PRINT "b{n}{"xyz"[i]}"\n' if f else '' for i, f in enumerate(fill)]
                     return _fill(tmpl, n, CONDS.get(ck, ''), slots)
                 out.append((f'{name}|{ck}|{"".join(map(str, fill))}', mk))
+        if nslots:
+            for ck in [c_ for c_ in conds if c_ in ('vt', 'vf', '-')]:
+                for nk, ntext in NOCODE.items():
+                    def mk2(n, tmpl=tmpl, ck=ck, ntext=ntext, nslots=nslots):
+                        slots = [ntext.replace('{n}', str(n)).replace('{s}', 'xyz'[i]) for i in range(nslots)]
+                        return _fill(tmpl, n, CONDS.get(ck, ''), slots)
+                    out.append((f'{name}|{ck}|{nk}', mk2))
     return out
 
 
